@@ -386,7 +386,7 @@ func genReceiverCase(r *vh.Rand, id string, big bool, st map[string]int) *scenar
 func genNameCase(r *vh.Rand, id string) *rcase {
 	c := &rcase{id: id, kind: "R", did: 1, gc: 2, to: 4, slots: 128, cs: 2048}
 	names := []string{"", ".", "..", "/", "//", "a/..", "a/.", "../../etc/passwd", "x/", "/abs/olute", "..a", "a..", "...",
-		"dragonboat.snapshot.message", "sub/dir/file", "\x00", "a b", "./", "../"}
+		"dragonboat.snapshot.message", "sub/dir/file", "\x00", "a b", "./", "../", "../escaped", "x/../../escaped2"}
 	sc := &scenario{c: c}
 	sc.addStream(r, 1, 1, 5, 100, 1, 10+r.Intn(3000), []int{1 + r.Intn(2000)})
 	ops := append([]op{}, sc.streams[0].chunks...)
